@@ -25,6 +25,8 @@ TRUSTED_BASE = [
     "zvgen (go/ast fact extractor) and zvh dump (dynamic tables) regenerate lean/ZapVerif/Gen/* from /repo on every run",
     "zvh (Go harness driving the real zap in-process) + zvdrv (compiled Lean model) + JSON diff: the correspondence check",
     "Go runtime, standard library and the Go memory model (see DESIGN.md §3 for the per-property modelled-not-verified list)",
+    "gen/trans.go (Go→GoMini translator) + Model/GoMini.lean (interpreter: the meaning given to the translated Go subset) + the shims of "
+    "docs/TRANSLATOR.md, validated against real Go by `bin/check CTR`",
 ]
 
 
@@ -297,8 +299,8 @@ def exec_ops(prop, ops, race=False, timeout=1500):
 
 def model_ops(prop, ops):
     """Run the same ops through the compiled Lean model."""
-    drv = os.path.join(LEAN, ".lake", "build", "bin", "zvdrv")
-    p = subprocess.run([drv, prop], input=("\n".join(ops) + "\n").encode(), capture_output=True, env=ENV)
+    drv = os.path.join(LEAN, ".lake", "build", "bin", "zvdrv-" + prop)
+    p = subprocess.run([drv], input=("\n".join(ops) + "\n").encode(), capture_output=True, env=ENV)
     if p.returncode != 0:
         raise RuntimeError("zvdrv failed: " + p.stderr.decode()[-2000:])
     lines = [l for l in p.stdout.decode().split("\n") if l.strip()]
@@ -446,14 +448,21 @@ class Check:
             okg, msg, table_rows = regen()
             if not okg:
                 log("regen failed:", msg)
+                # a table that another property needs says nothing about this one: only this property's own tables count here
+                # (a table this property's Lean files import without listing it breaks its `lake build`, which is reported)
+                named = False
                 for m in re.finditer(r"^gen:(\S+) (.*)$", msg, re.M):
-                    broken.append(("gen:" + m.group(1), m.group(2)))
-                if not any(b[0].startswith("gen:") for b in broken):
+                    named = True
+                    if m.group(1) in self.gen_tables:
+                        broken.append(("gen:" + m.group(1), m.group(2)))
+                    else:
+                        log("table %s could not be regenerated (not a table of %s): %s" % (m.group(1), prop, m.group(2)[:200]))
+                if not named:
                     broken.append(("gen:?", msg[-1500:]))
         thms = theorems_of(prop)
         obligations = len(thms) + len(self.gen_tables)
         okl, blog = lake_build(["ZapVerif.Props." + prop] + self.extra_targets)
-        okd, dlog = lake_build(["zvdrv"])
+        okd, dlog = lake_build(["zvdrv-" + prop])
         proved = set()
         if okl:
             oka, axioms, amsg = audit(prop)
@@ -617,7 +626,7 @@ def replay(prop, path, race=False):
         print(msg)
         return 2
     regen()
-    lake_build(["zvdrv"])
+    lake_build(["zvdrv-" + prop])
     case = j.get("case")
     if case is None:
         print("replay names a broken obligation, no concrete case:", j.get("tie"), j.get("oracle"))
